@@ -74,10 +74,10 @@ func c01OptionClasses(e *Env, rule string) {
 		ib = 64
 	}
 	cells := []struct {
-		name           string
-		lo, hi         int64
-		nib, extBytes  int64
-		extLo, extHi   int64
+		name          string
+		lo, hi        int64
+		nib, extBytes int64
+		extLo, extHi  int64
 	}{
 		{"0-12", 0, 12, -1, 0, 0, 0},
 		{"13-268", 13, 268, 13, 1, 0, 255},
